@@ -37,6 +37,12 @@ class Grammar(qc.FullGrammar):
         else:
             P.cfg.update(trapq=tq, trapkind=1, trapon=chain[h[21] % len(chain)])       # dispatch_assert_queue_not on a queue of the chain
         P.features.add("trap-kind=%d" % P.cfg["trapkind"])
+        # two thirds of the cases install the queue-specific values from 2-4 threads at once, so that the first dispatch_queue_set_specific calls on
+        # a fresh queue (the lazily created head) race each other; the model (the final key table) is the same either way
+        ck = [0, 2, 3, 2, 4, 0][h[23] % 6]
+        if ck:
+            P.cfg["conckeys"] = ck
+        P.features.add("concurrent-first-set_specific=%d" % ck)
 
     def chain_custom(self, P, q):
         return frozenset(x for x in P.chain_of(q) if x < 20) if q < 20 else frozenset()
@@ -114,7 +120,7 @@ class Check(E3Check):
             "relative priorities} x 3 autorelease frequencies x 3 overcommit settings under all 24 orders of the four constructors must be one table entry; a queue is "
             "created from each and must report label, QoS class (after the platform clamp), relative priority, width and initial activity (dispatch_queue_get_label, "
             "dispatch_queue_get_qos_class, dispatch_debug); dispatch_get_global_queue over the 11 documented identifiers +-3, -300..300 and 7 flag values; rapidcheck adds "
-            "arbitrary (invalid) arguments. (2) Hypothesis recipe -> program over a generated hierarchy with queue-specific values set at generated levels: inside items "
+            "arbitrary (invalid) arguments. (2) Hypothesis recipe -> program over a generated hierarchy with queue-specific values set at generated levels (in two thirds of the programs by 2-4 threads at once, so that the first dispatch_queue_set_specific calls on each fresh queue race): inside items "
             "reached by async, sync, barrier, redirection through concurrent queues, apply and async_and_wait, nested to depth 3, dispatch_get_specific is compared with "
             "the model's nearest-ancestor lookup, dispatch_assert_queue is called on queues the model says are accepted and dispatch_assert_queue_not on queues it says "
             "are not (both must pass); each case ends with one announced expected-to-trap probe (the inverse assertion) that must kill the executor. Non-trivial (part 2): "
